@@ -62,6 +62,13 @@ def gen_case(rng, tier):
     if rng.random() < 0.5:
         # code which reads top-level entries by their bare names (what symbols handed to SOME OTHER evaluation context must never shadow)
         out[0]['items'].append(['peek', SP('eval', code=rng.choice(["canary['n'] + 1", "[canary['plain'], canary['n'] * 2]", "lookup = canary\n(lookup['n'], 'x')"]))])
+    if rng.random() < 0.3:
+        # a reference INTO a container, then code that hands out the whole container by name, then the container itself: what the
+        # evaluation keeps for the half-evaluated container in between is its own business and must not come out
+        hold = M([['inner', M([['v', S(1)], ['w', S('x', style='dq')]])], ['lst', L([S(1), M([['out', S(2)]])])]])
+        into = rng.choice(['hold.inner.v', 'hold.lst[1].out', 'hold.inner'])
+        whole = rng.choice(['hold', 'hold', "hold['lst']", 'ayns.cfg.hold', "[hold, 1]"])
+        out[0]['items'] = [['zz_first', SP('xref', path=into)], ['zz_whole', SP('eval', code=whole)]] + out[0]['items'] + [['hold', hold]]
     if rng.random() < 0.5:
         # mutable objects built by the leading statements of a multi-statement !eval node: every evaluation builds them anew
         out[0]['items'].append(['acc', SP('eval', code=rng.choice(["acc_v = [1, {'k': [2]}]\nacc_v", "import collections\nd = collections.OrderedDict(k=[2])\n[0, d]",
